@@ -1011,7 +1011,7 @@ class Airplane:
 
         # Check for .stl file
         filename = kwargs.get("filename")
-        if ".stl" not in filename:
+        if not filename.endswith(".stl"):
             raise IOError("{0} is not a .stl file.".format(filename))
 
         # Loop through segments
@@ -1055,7 +1055,7 @@ class Airplane:
 
         # Check for .stl file
         filename = kwargs.get("filename")
-        if ".vtk" not in filename:
+        if not filename.endswith(".vtk"):
             raise IOError("{0} is not a .vtk file.".format(filename))
 
         # Open file
